@@ -1,6 +1,6 @@
 From Coq Require Import Extraction ExtrOcamlBasic ExtrOcamlString.
-From Oras Require Import Base.Prelude Generated.GC02 Model.CopySpec Model.CopyTop Model.CopyFault.
+From Oras Require Import Base.Prelude Generated.GC02 Model.CopySpec Model.CopyTop Model.CopyOpt Model.CopyFault Model.CopyFaultOpt.
 Extraction Language OCaml.
 (* effective concurrency with the default re-read from copy.go *)
 Definition eff_K_gen : Z -> nat := eff_K defaultConcurrency.
-Extraction "xc02.ml" fstep finit tainted closedb present_nodes eff_K_gen N.of_nat N.to_nat.
+Extraction "xc02.ml" fstep fstep_opt finit tainted closedb present_nodes eff_K_gen N.of_nat N.to_nat.
